@@ -45,7 +45,7 @@ def main(argv):
             res["truncated"] = True
             break
         seed = run_seed(verif_seed, prop, tier, i)
-        case = make_case(mod, seed, tier)
+        case = make_case(mod, seed, tier, i, verif_seed)
         tape = Tape(seed)
         out = run_one(mod, case, tape, run_timeout)
         res["runs"] += 1
